@@ -10,17 +10,18 @@ ASSUMPTIONS = [
     "claim: for every hierarchical wire of the fixture as starting point, the real _get_hwires(start, selection=ALL) returns exactly "
     "the wires in the connected component of the start under an adjacency relation stated independently from the pin->wire fields "
     "(bounded transitive closure), without duplicates and without raising; hence every member of a net yields the same answer",
-    "fixtures: 'shared-sub' (a non-leaf definition instanced twice on one net, three levels) and 'feed-through' (one inner net on "
-    "two ports of a cell); deeper hierarchies, buses wider than one bit and the narrower selections are outside this check",
+    "fixtures: 'shared-sub' (a non-leaf definition instanced twice on one net, three levels), 'wire-only' (a cell with two ports "
+    "and a net but no children, one level below the top, between two nets of its parent) and, in the thorough tier, 'feed-through' (one inner net on two ports of "
+    "a cell that also has a child); deeper hierarchies, buses wider than one bit and the narrower selections are outside this check",
 ]
 
-FIX = {"shared-sub": 3, "feed-through": 3}
+FIX = {"shared-sub": 3, "wire-only": 4, "feed-through": 3}
 
 
 def jobs(tier):
     out = []
     for fx, n in FIX.items():
-        if tier == "quick" and fx != "shared-sub":
+        if tier == "quick" and fx == "feed-through":
             continue
         for s in range(n):
             for goal in ("exactly-the-connected-net", "no-duplicates", "never-raises"):
